@@ -40,7 +40,9 @@ static bool parseName(const std::string& name, int& p, int& n) {
 	return sscanf(name.c_str(), "p%d.%d", &p, &n) == 2;
 }
 
+static bool NODELAY = false;     // mode "burst": no artificial delays, producers hammer the queue
 static void maybeDelay(unsigned salt) {
+	if (NODELAY) return;
 	// cheap per-call pseudo random delay (0, or 20-200 us) derived from seed, thread and a counter
 	static thread_local unsigned ctr = 0;
 	unsigned x = SEED * 2654435761u + salt * 40503u + (++ctr) * 2246822519u + (unsigned)(size_t)pthread_self();
@@ -127,7 +129,8 @@ int main(int argc, char** argv) {
 	FILE* out = fopen(argv[1], "w");
 	int runs = atoi(argv[2]), producers = atoi(argv[3]), per = atoi(argv[4]);
 	unsigned seed = (unsigned)atoi(argv[5]);
-	bool block = strcmp(argv[6], "block") == 0;
+	bool block = strcmp(argv[6], "block") == 0 || strcmp(argv[6], "burst") == 0;
+	NODELAY = strcmp(argv[6], "burst") == 0;
 	Factory::getInstance();
 	for (int r = 1; r <= runs; r++) {
 		fprintf(out, "{\"k\":\"reset\",\"run\":%d,\"producers\":%d,\"per\":%d,\"mode\":\"%s\"}\n", r, producers, per, argv[6]);
@@ -138,7 +141,7 @@ int main(int argc, char** argv) {
 		if (pid == 0) {
 			close(pfd[0]);
 			SEED = seed * 7919u + (unsigned)r;
-			alarm(20);
+			alarm(NODELAY ? 10 : 20);
 			oneRun(producers, per, block, fdopen(pfd[1], "w"));
 		}
 		close(pfd[1]);
